@@ -1,7 +1,7 @@
 (* C09 — call completion: every call completes at most once, exactly once when answered or when
    the send failed, and with the reply that carries its own id. *)
 From OlaBase Require Import Bytes.
-From C09 Require Import Gen Model FrameProofs.
+From C09 Require Import Gen Model FrameProofs Generic.
 Local Open Scope N_scope.
 
 Lemma cnt_app k a b : cnt k (a ++ b) = (cnt k a + cnt k b)%nat.
@@ -151,7 +151,8 @@ Proof.
   destruct (memN q (cancelled r)); [inversion H; subst; cbn; auto 10|].
   destruct (key_of q (requests r)); [|inversion H; subst; cbn; auto 10].
   destruct (send_msg _ _ _ _) as [[r1 e1] b1] eqn:E. inversion H; subst. cbn.
-  apply send_msg_rpc in E. exact E.
+  apply send_msg_rpc in E. destruct E as (S1 & S2 & S3 & S4 & S5).
+  rewrite dones_app, streams_app, S4, S5. cbn. auto 10.
 Qed.
 
 Lemma supersede_rpc cl ok r id r' evs :
@@ -170,6 +171,7 @@ Lemma handle_request_rpc cl ok r m r' evs :
   streams evs = [].
 Proof.
   unfold handle_request. intros H.
+  destruct (method_kind (m_name m) =? 3); [inversion H; subst; cbn; auto 10|].
   destruct (method_kind (m_name m) =? 0).
   - destruct (send_msg _ _ _ _) as [[r1 e1] b1] eqn:E. inversion H; subst.
     apply send_msg_rpc in E. exact E.
@@ -199,6 +201,8 @@ Proof.
     + destruct (m_type m =? STREAM_REQUEST);
         [|inversion H; subst; cbn; rewrite app_nil_r; split; [exact HJ|reflexivity]].
       unfold handle_stream_request in H.
+      destruct (method_kind (m_name m) =? 3);
+        [inversion H; subst; cbn; rewrite app_nil_r; split; [exact HJ|reflexivity]|].
       destruct (method_kind (m_name m) =? 0).
       * destruct (send_msg _ _ _ _) as [[r1 e1] b1] eqn:E. inversion H; subst.
         apply send_msg_rpc in E as (S1 & S2 & S3 & S4 & S5). rewrite S4, app_nil_r.
@@ -344,86 +348,45 @@ Notation run := (run decode method_kind req_ok service).
 
 Definition JT (r : rpc) (tr : list event) : Prop := J r (dones tr) (dispatched tr) (streams tr).
 
-Lemma JT_frame r tr evs : JT r tr -> dones evs = [] -> streams evs = [] -> JT r (tr ++ evs).
+Lemma JT_frame r tr evs : JT r tr -> Forall frame_only evs -> JT r (tr ++ evs).
 Proof.
-  unfold JT. intros H Hd Hs. rewrite dones_app, dispatched_app, streams_app, Hd, Hs, !app_nil_r.
+  unfold JT. intros H Hf. rewrite dones_app, dispatched_app, streams_app.
+  rewrite (frame_only_dones _ Hf), (frame_only_streams _ Hf), !app_nil_r.
   apply J_mono. exact H.
 Qed.
 
-Lemma body_phase_J ok f r avail f' r' rest evs tr :
-  JT r tr -> body_phase ok f r avail = (f', r', rest, evs) -> JT r' (tr ++ evs).
+Lemma JT_dispatch cl ok r tr m r' evs :
+  JT r tr -> In (EvDispatch m) tr -> dispatch cl ok r m = (r', evs) -> JT r' (tr ++ evs).
 Proof.
-  intros HJ H. unfold Model.body_phase in H.
-  destruct (recv _ avail) as [got rs].
-  destruct (_ =? expected f).
-  - destruct (decode _) as [m|].
-    + destruct (dispatch (closed f) ok r m) as [r1 evs1] eqn:Ed.
-      inversion H; subst f' r' rest evs; clear H.
-      pose proof Ed as Ed2. apply (dispatch_events method_kind req_ok service) in Ed2.
-      apply rpc_only_dispatched in Ed2.
-      unfold JT in *. rewrite dones_app, dispatched_app, streams_app.
-      unfold dones at 2. unfold dispatched at 2. unfold streams at 2. cbn [flat_map app].
-      fold (dones evs1). fold (dispatched evs1). fold (streams evs1). rewrite Ed2.
-      eapply J_dispatch in Ed; [| apply J_mono; exact HJ |].
-      * destruct Ed as [Ed Es]. rewrite Es, app_nil_r. exact Ed.
-      * apply in_or_app. right. left. reflexivity.
-    + inversion H; subst. apply JT_frame; [exact HJ|reflexivity|reflexivity].
-  - inversion H; subst. apply JT_frame; [exact HJ|reflexivity|reflexivity].
+  intros HJ Hin Ed. unfold JT in *.
+  pose proof Ed as Ed2. apply (dispatch_events method_kind req_ok service) in Ed2.
+  apply rpc_only_dispatched in Ed2.
+  rewrite dones_app, dispatched_app, streams_app, Ed2, app_nil_r.
+  eapply J_dispatch in Ed; [|exact HJ|apply in_dispatched; exact Hin].
+  destruct Ed as [Ed Es]. rewrite Es, app_nil_r. exact Ed.
 Qed.
 
-Lemma descriptor_ready_J ok f r avail f' r' rest evs tr :
-  JT r tr -> descriptor_ready ok f r avail = (f', r', rest, evs) -> JT r' (tr ++ evs).
+Lemma JT_call cl ok st nm rq r tr r' evs :
+  JT r tr -> call_method cl ok st nm rq r = (r', evs) -> JT r' (tr ++ evs).
 Proof.
-  intros HJ H. unfold Model.descriptor_ready in H.
-  destruct (dead r); [inversion H; subst; rewrite app_nil_r; exact HJ|].
-  destruct (expected f =? 0); [|eapply body_phase_J; eauto].
-  destruct (read_header f avail) as [[[f1 rs] ver] size].
-  destruct (size =? 0); [inversion H; subst; rewrite app_nil_r; exact HJ|].
-  destruct (negb _); [inversion H; subst; apply JT_frame; [exact HJ|reflexivity|reflexivity]|].
-  destruct (MAX_BUFFER_SIZE <? size); [inversion H; subst; apply JT_frame; [exact HJ|reflexivity|reflexivity]|].
-  destruct (allocate_msg_buffer _ size) as [f4 ret].
-  destruct (ret <? size); [inversion H; subst; apply JT_frame; [exact HJ|reflexivity|reflexivity]|].
-  eapply body_phase_J; eauto.
+  intros HJ Ec. pose proof Ec as Ec2. apply call_method_events in Ec2. apply rpc_only_dispatched in Ec2.
+  unfold JT in *. rewrite dones_app, dispatched_app, streams_app, Ec2, app_nil_r.
+  eapply J_call; eauto.
 Qed.
 
-Lemma feed_J fuel : forall ok f r avail f' r' evs tr,
-  JT r tr -> feed fuel ok f r avail = (f', r', evs) -> JT r' (tr ++ evs).
+Lemma JT_complete cl ok r tr q res r' evs :
+  JT r tr -> request_complete cl ok r q res = (r', evs) -> JT r' (tr ++ evs).
 Proof.
-  induction fuel as [|fuel IH]; intros ok f r avail f' r' evs tr HJ H; cbn [Model.feed] in H.
-  - destruct avail; [inversion H; subst; rewrite app_nil_r; exact HJ|].
-    destruct (closed f || dead r); inversion H; subst; [rewrite app_nil_r; exact HJ|].
-    apply JT_frame; [exact HJ|reflexivity|reflexivity].
-  - destruct avail as [|a av]; [inversion H; subst; rewrite app_nil_r; exact HJ|].
-    destruct (closed f || dead r); [inversion H; subst; rewrite app_nil_r; exact HJ|].
-    destruct (descriptor_ready ok f r (a :: av)) as [[[f1 r1] rest] evs1] eqn:Edr.
-    destruct (feed fuel ok f1 r1 rest) as [[f2 r2] evs2] eqn:Ef.
-    inversion H; subst. rewrite app_assoc.
-    eapply IH; [|exact Ef]. eapply descriptor_ready_J; eauto.
-Qed.
-
-Lemma step_J f r o f' r' evs tr :
-  JT r tr -> step f r o = (f', r', evs) -> JT r' (tr ++ evs).
-Proof.
-  intros HJ H. destruct o as [bs ok|st nm rq ok|q res ok]; cbn [Model.step] in H.
-  - eapply feed_J; eauto.
-  - destruct (call_method _ _ _ _ _ _) as [r1 evs1] eqn:Ec. inversion H; subst.
-    pose proof Ec as Ec2. apply call_method_events in Ec2. apply rpc_only_dispatched in Ec2.
-    unfold JT in *. rewrite dones_app, dispatched_app, streams_app, Ec2, app_nil_r.
-    eapply J_call; eauto.
-  - destruct (request_complete _ _ _ _ _) as [r1 evs1] eqn:Ec. inversion H; subst.
-    apply request_complete_rpc in Ec as (S1 & S2 & S3 & S4 & S5).
-    apply JT_frame; [|exact S4|exact S5]. unfold JT in *. eapply J_same; eauto.
+  intros HJ Ec. pose proof Ec as Ec2. apply request_complete_events in Ec2. apply rpc_only_dispatched in Ec2.
+  apply request_complete_rpc in Ec as (S1 & S2 & S3 & S4 & S5).
+  unfold JT in *. rewrite dones_app, dispatched_app, streams_app, Ec2, S4, S5, !app_nil_r.
+  eapply J_same; eauto.
 Qed.
 
 Lemma run_J ops : forall f r f' r' evs tr,
   JT r tr -> run f r ops = (f', r', evs) -> JT r' (tr ++ evs).
 Proof.
-  induction ops as [|o ops IH]; intros f r f' r' evs tr HJ H; cbn [Model.run] in H.
-  - inversion H; subst. rewrite app_nil_r. exact HJ.
-  - destruct (step f r o) as [[f1 r1] evs1] eqn:Es.
-    destruct (run f1 r1 ops) as [[f2 r2] evs2] eqn:Er.
-    inversion H; subst. rewrite app_assoc.
-    eapply IH; [|exact Er]. eapply step_J; eauto.
+  exact (run_P decode method_kind req_ok service JT JT_frame JT_dispatch JT_call JT_complete ops).
 Qed.
 
 Lemma JT_init : s0 < 4294967296 -> JT (mkRpc false s0 0 [] 0 [] []) [].
